@@ -356,6 +356,19 @@ func (e *FieldAccessExpr) Check(ctx *CheckCtx) error {
 		if leftIsFAE {
 			// Support cascade field access such as:
 			// json(value)['x']['y']
+			// Only a JSON value has members that can be accessed again, the
+			// element of a list is a plain text or number
+			root := e.Left
+			for {
+				fae, ok := root.(*FieldAccessExpr)
+				if !ok {
+					break
+				}
+				root = fae.Left
+			}
+			if root.ReturnType() != TJSON {
+				return NewSyntaxError(e.Left.GetPos(), "Field access expression left require JSON or List type")
+			}
 			switch e.FieldName.(type) {
 			case *StringExpr, *NumberExpr:
 				return nil
